@@ -24,8 +24,10 @@ pub struct GenCfg {
   pub junk: bool,
 }
 
+#[derive(Clone)]
 struct G {
   rng: StdRng,
+  values: std::collections::BTreeMap<String, u64>,
   utxos: Vec<Utxo>,
   next_tx: usize,
   next_env: usize,
@@ -358,55 +360,68 @@ impl G {
   }
 }
 
-/// Generate a ledger-family scenario.
-pub fn ledger(seed: u64, tag: &str, cfg: &GenCfg, flags: &[&str], chain: &str) -> Scenario {
-  let mut g = G {
-    rng: StdRng::seed_from_u64(seed),
-    utxos: Vec::new(),
-    next_tx: 0,
-    next_env: 0,
-    next_block: 0,
-    env_labels: Vec::new(),
-    runes: Vec::new(),
-    names: Vec::new(),
-    runic: Vec::new(),
-    height: 0,
-    tag: tag.to_string(),
-  };
-  let mut steps = Vec::new();
-  let mut values: std::collections::BTreeMap<String, u64> = Default::default();
-  for b in 0..cfg.blocks {
-    let mut block = g.gen_block(cfg);
-    // fees
+impl G {
+  fn new(seed: u64, tag: &str) -> Self {
+    G {
+      rng: StdRng::seed_from_u64(seed),
+      values: Default::default(),
+      utxos: Vec::new(),
+      next_tx: 0,
+      next_env: 0,
+      next_block: 0,
+      env_labels: Vec::new(),
+      runes: Vec::new(),
+      names: Vec::new(),
+      runic: Vec::new(),
+      height: 0,
+      tag: tag.to_string(),
+    }
+  }
+
+  /// one complete block (transactions and coinbase) on top of the current tip
+  fn next_block(&mut self, cfg: &GenCfg) -> BlockSpec {
+    let mut block = self.gen_block(cfg);
     let mut fees = 0u64;
     for t in &block.txs {
-      let tin: u64 = t.ins.iter().map(|l| values[l]).sum();
+      let tin: u64 = t.ins.iter().map(|l| self.values[l]).sum();
       let tout: u64 = t.outs.iter().map(|o| o.v).sum();
       fees += tin - tout;
       for (i, o) in t.outs.iter().enumerate() {
-        values.insert(format!("{}:{i}", t.label), o.v);
+        self.values.insert(format!("{}:{i}", t.label), o.v);
       }
     }
     let reward = SUBSIDY_UNITS + fees;
-    let n_cb = g.rng.gen_range(1..=3);
-    let mut vals = g.pick_value_split(reward, n_cb);
-    if g.rng.gen_bool(0.6) {
+    let n_cb = self.rng.gen_range(1..=3);
+    let mut vals = self.pick_value_split(reward, n_cb);
+    if self.rng.gen_bool(0.6) {
       let used: u64 = vals.iter().sum();
       *vals.last_mut().unwrap() += reward - used;
     }
     let cbl = format!("c{}", block.id);
     for (i, v) in vals.iter().enumerate() {
-      let (t, s) = g.out_type();
+      let (t, s) = self.out_type();
       block.cb.push(OutSpec { v: *v, t: t.clone(), s });
-      values.insert(format!("{cbl}:{i}"), *v);
-      g.utxos.push(Utxo {
-        label: format!("{cbl}:{i}"),
-        v: *v,
-        t,
-        h: g.height + 1,
-      });
+      self.values.insert(format!("{cbl}:{i}"), *v);
+      if t != "opret" {
+        self.utxos.push(Utxo {
+          label: format!("{cbl}:{i}"),
+          v: *v,
+          t,
+          h: self.height + 1,
+        });
+      }
     }
-    g.height += 1;
+    self.height += 1;
+    block
+  }
+}
+
+/// Generate a ledger-family scenario.
+pub fn ledger(seed: u64, tag: &str, cfg: &GenCfg, flags: &[&str], chain: &str) -> Scenario {
+  let mut g = G::new(seed, tag);
+  let mut steps = Vec::new();
+  for b in 0..cfg.blocks {
+    let block = g.next_block(cfg);
     steps.push(Step::Block(block));
     if cfg.update_every > 0 && (b + 1) % cfg.update_every == 0 {
       steps.push(Step::Update);
@@ -416,13 +431,206 @@ pub fn ledger(seed: u64, tag: &str, cfg: &GenCfg, flags: &[&str], chain: &str) -
     }
   }
   steps.push(Step::Update);
+  let commit_interval = match g.rng.gen_range(0..5) {
+    0 => Some(1),
+    1 => Some(2),
+    2 => Some(3),
+    3 => Some(5),
+    _ => None,
+  };
   Scenario {
     name: format!("{tag}-seed{seed}"),
     chain: chain.into(),
     flags: flags.iter().map(|s| s.to_string()).collect(),
-    commit_interval: None,
+    commit_interval,
     savepoint_interval: None,
     max_savepoints: None,
     steps,
   }
+}
+
+/// Protocol-family chain generator: a chain with forks; `snap[h]` is the generator state at height h.
+pub struct ChainGen {
+  g: G,
+  snap: Vec<G>,
+  cfg: GenCfg,
+}
+
+impl ChainGen {
+  pub fn new(seed: u64, tag: &str, cfg: GenCfg) -> Self {
+    let g = G::new(seed, tag);
+    Self {
+      snap: vec![g.clone()],
+      g,
+      cfg,
+    }
+  }
+
+  pub fn height(&self) -> usize {
+    self.snap.len() - 1
+  }
+
+  pub fn mine(&mut self, steps: &mut Vec<Step>, n: usize) {
+    for _ in 0..n {
+      let b = self.g.next_block(&self.cfg);
+      self.snap.push(self.g.clone());
+      steps.push(Step::Block(b));
+    }
+  }
+
+  /// replace the last d blocks by `new` fresh ones
+  pub fn fork(&mut self, steps: &mut Vec<Step>, d: usize, new: usize) {
+    let keep = self.snap.len() - 1 - d;
+    let mut g = self.snap[keep].clone();
+    // labels must stay globally unique: continue the counters of the abandoned branch
+    g.next_tx = self.g.next_tx;
+    g.next_env = self.g.next_env;
+    g.next_block = self.g.next_block;
+    // fresh randomness so that the new branch differs
+    g.rng = StdRng::seed_from_u64(self.g.rng.r#gen());
+    self.snap.truncate(keep + 1);
+    self.g = g;
+    steps.push(Step::Pop { n: d });
+    self.mine(steps, new);
+  }
+
+  pub fn rng(&mut self) -> &mut StdRng {
+    &mut self.g.rng
+  }
+}
+
+pub struct ProtoCfg {
+  pub ci: usize,
+  pub si: usize,
+  pub ms: usize,
+  pub flags: Vec<String>,
+}
+
+fn scenario(name: String, p: &ProtoCfg, steps: Vec<Step>) -> Scenario {
+  Scenario {
+    name,
+    chain: "regtest".into(),
+    flags: p.flags.clone(),
+    commit_interval: Some(p.ci),
+    savepoint_interval: Some(p.si),
+    max_savepoints: Some(p.ms),
+    steps,
+  }
+}
+
+fn light_cfg() -> GenCfg {
+  GenCfg {
+    blocks: 0,
+    max_txs: 2,
+    inscriptions: true,
+    runes: true,
+    update_every: 0,
+    reopen: false,
+    dup_coinbase: false,
+    junk: false,
+  }
+}
+
+/// C14: index `h` blocks (updating after every `batch` blocks), switch to a branch that replaces the
+/// last `d` blocks by `d + 1` new ones, update, compare with a from-scratch index.
+pub fn reorg_case(seed: u64, tag: &str, p: &ProtoCfg, h: usize, d: usize, batch: usize) -> Scenario {
+  let mut cg = ChainGen::new(seed, tag, light_cfg());
+  let mut steps = Vec::new();
+  let mut done = 0;
+  while done < h {
+    let n = batch.min(h - done);
+    cg.mine(&mut steps, n);
+    done += n;
+    steps.push(Step::Update);
+  }
+  cg.fork(&mut steps, d, d + 1);
+  steps.push(Step::Update);
+  steps.push(Step::State);
+  steps.push(Step::Fresh { limit: None });
+  scenario(format!("{tag}-reorg-h{h}-d{d}-b{batch}-seed{seed}"), p, steps)
+}
+
+/// C12/C13/C14: a random history of mining, forks, updates, reopens and crashes.
+pub fn proto_random(seed: u64, tag: &str, p: &ProtoCfg, ops: usize, crash_points: &[&str], forks: bool) -> Scenario {
+  let mut cg = ChainGen::new(seed, tag, light_cfg());
+  let mut steps = Vec::new();
+  for _ in 0..ops {
+    let r: u32 = cg.rng().gen_range(0..100);
+    if r < 45 {
+      let n = cg.rng().gen_range(1..=4);
+      cg.mine(&mut steps, n);
+    } else if r < 70 {
+      steps.push(Step::Update);
+      steps.push(Step::State);
+    } else if r < 78 {
+      steps.push(Step::Reopen);
+    } else if r < 90 && forks && cg.height() >= 2 {
+      let maxd = cg.height().min(2 * p.si + 2);
+      let d = cg.rng().gen_range(1..=maxd);
+      let extra = cg.rng().gen_range(1..=2);
+      cg.fork(&mut steps, d, d + extra);
+      steps.push(Step::Update);
+      steps.push(Step::State);
+      steps.push(Step::Fresh { limit: None });
+    } else if !crash_points.is_empty() {
+      let n = cg.rng().gen_range(1..=5);
+      cg.mine(&mut steps, n);
+      let point = crash_points.choose(cg.rng()).unwrap().to_string();
+      let occ = cg.rng().gen_range(1..=2);
+      steps.push(Step::Crash { point, occ });
+      steps.push(Step::State);
+      steps.push(Step::Update);
+      steps.push(Step::State);
+    }
+  }
+  steps.push(Step::Update);
+  steps.push(Step::State);
+  steps.push(Step::Fresh { limit: None });
+  scenario(format!("{tag}-proto-seed{seed}"), p, steps)
+}
+
+/// C12: the same chain (same seed, same tag => same block ids) under a given schedule.
+pub fn schedule_case(seed: u64, tag: &str, p: &ProtoCfg, blocks: usize, sched: u64, flags_name: &str) -> Scenario {
+  let mut cg = ChainGen::new(seed, tag, GenCfg { max_txs: 3, ..light_cfg() });
+  let mut chain_steps = Vec::new();
+  cg.mine(&mut chain_steps, blocks);
+  // the schedule decides where update / reopen calls go; it does not touch the chain generator
+  let mut srng = StdRng::seed_from_u64(sched);
+  let mut steps = Vec::new();
+  for s in chain_steps {
+    steps.push(s);
+    let r: u32 = srng.gen_range(0..100);
+    if r < 35 {
+      steps.push(Step::Update);
+      if srng.gen_bool(0.3) {
+        steps.push(Step::Reopen);
+      }
+      if srng.gen_bool(0.3) {
+        steps.push(Step::State);
+      }
+    }
+  }
+  steps.push(Step::Update);
+  steps.push(Step::State);
+  scenario(format!("{tag}-sched{sched}-ci{}-{flags_name}-seed{seed}", p.ci), p, steps)
+}
+
+/// C13: index a few blocks, then die at `point` (its `occ`-th visit) while indexing more
+/// (after a fork when `fork_depth` > 0), reopen, compare with a from-scratch index of the same
+/// prefix, continue to the tip and compare again.
+pub fn crash_case(seed: u64, tag: &str, p: &ProtoCfg, point: &str, occ: u64, pre: usize, more: usize, fork_depth: usize) -> Scenario {
+  let mut cg = ChainGen::new(seed, tag, light_cfg());
+  let mut steps = Vec::new();
+  cg.mine(&mut steps, pre);
+  steps.push(Step::Update);
+  if fork_depth > 0 {
+    cg.fork(&mut steps, fork_depth, fork_depth + more);
+  } else {
+    cg.mine(&mut steps, more);
+  }
+  steps.push(Step::Crash { point: point.to_string(), occ });
+  steps.push(Step::Update);
+  steps.push(Step::State);
+  steps.push(Step::Fresh { limit: None });
+  scenario(format!("{tag}-crash-{point}-{occ}-f{fork_depth}-seed{seed}"), p, steps)
 }
